@@ -869,11 +869,15 @@ _c17 = {"UNITS": [], "VX_NO_REUSE": True}
 if not globals().get("VX_NO_REUSE"):     # reuse is never transitive: the other spec is loaded without ITS reuse blocks (no cycles)
     exec(compile(open("/verif/specs/C17/spec.py").read(), "/verif/specs/C17/spec.py", "exec"), _c17)
 for _u in _c17["UNITS"]:
-    if _u.name.startswith("backends.") and not _u.name.startswith("backends.ciq.") and _u.kind != "bounded":
+    # deque.* (added after seeded change C01-8 was missed): Michael's deque IS work_items_ of the lifo / abp policies -- a pop that does
+    # not wait for a STABLE anchor loses or duplicates a queued task.  (deque.alloc.link_tags carries a C17 known finding: not re-run here)
+    if (((_u.name.startswith("backends.") and not _u.name.startswith("backends.ciq.")) or _u.name.startswith("backend.")
+         or (_u.name.startswith("deque.") and not _u.name.startswith("deque.alloc") and not _u.name.startswith("deque.seq")))
+            and _u.kind != "bounded"):
         _u.name = "c17." + _u.name
         _u.template = "../C17/" + _u.template.replace("../C17/", "")
         UNITS.append(_u)
-META["trusted_base"] = list(META.get("trusted_base", [])) + ["units c17.backends.* are the C17 units of the same name (specs/C17/backends*.c) with their trusted base"]
+META["trusted_base"] = list(META.get("trusted_base", [])) + ["units c17.backends.* / c17.backend.* / c17.deque.* are the C17 units of the same name (specs/C17/backends*.c, deque*.c) with their trusted base"]
 
 
 
